@@ -178,3 +178,4 @@ def check(ctx):
     ctx.import_rules("C02", r"^(sync-blocker|blocker|fast-blocker|thread-park)/")
     ctx.import_rules("C02", r"^canceled-only-if-canceled$|^self-injection$|^injected-kind$")
     ctx.import_rules("C18", r"^io-cancel/")
+    shared.drops_do_not_block_unmasked(ctx)
